@@ -202,8 +202,16 @@ pub fn run(rep: &mut Report) {
                                         let apath = dir.path().join("a.cba");
                                         let out = dir.path().join("out.bin");
                                         std::fs::write(&apath, &built.bytes).unwrap();
-                                        for http in [false, true] {
+                                        let rev: Vec<usize> = seq.iter().rev().copied().collect();
+                                        let prior = u.concat(&u.words, &rev);
+                                        for (http, in_place) in [(false, false), (true, false), (false, true)] {
                                             let _ = std::fs::remove_file(&out);
+                                            let mut extra = vec!["--verify-output".to_string()];
+                                            if in_place {
+                                                // over a prior output holding the same chunks in reverse order
+                                                std::fs::write(&out, &prior).unwrap();
+                                                extra = vec!["--seed-output".to_string()];
+                                            }
                                             let target = if http {
                                                 lab.server.arm(&built.bytes, Script { faults: vec![], splits: vec![], keep_alive: true });
                                                 lab.server.url()
@@ -211,12 +219,12 @@ pub fn run(rep: &mut Report) {
                                                 apath.to_str().unwrap().to_string()
                                             };
                                             agg.add("cli_clones", 1);
-                                            match crate::c04::cli_clone(&lab.rt, crate::c04::cli_clone_args(&target, &out, &["--verify-output".to_string()])) {
+                                            match crate::c04::cli_clone(&lab.rt, crate::c04::cli_clone_args(&target, &out, &extra)) {
                                                 Err(p) => agg.viol(&format!("panic@{}", panic_site(&p)), || detail("cli clone", json!(p))),
                                                 Ok(Err(e)) => agg.viol("conforming-archive-rejected", || detail("cli clone", json!(e))),
                                                 Ok(Ok(())) => {
                                                     if std::fs::read(&out).unwrap_or_default() != source {
-                                                        agg.viol("conforming-archive-cloned-wrong", || detail("cli clone", json!(http)));
+                                                        agg.viol("conforming-archive-cloned-wrong", || detail("cli clone", json!({"http": http, "in_place_over_reversed_prior": in_place})));
                                                     }
                                                 }
                                             }
